@@ -36,7 +36,8 @@ CONSTANTS InitCap,   \* capacity handed to the constructor (>= 64 = defaultCapac
           Autos,     \* WithAutoMmap thresholds tried for calloc buffers (0 = off)
           MaxOps,    \* bound on behaviour length
           CapBound,  \* the size symbol "2cap" is offered only while curSz <= CapBound
-          Cmps       \* comparators offered to the sorter: subset of {"len", "lenrev", "const"}
+          Cmps,      \* comparators offered to the sorter: subset of {"len", "lenrev", "const"}
+          MaxSort    \* the sorter is offered ranges of at most MaxSort slices (it is specified through Permutations)
 
 VARIABLES mode, curSz, offset, maxSz, auto,   \* b.bufType, b.curSz, b.offset, b.maxSz, b.autoMmapAfter
           mem, written, kind,                 \* kind: "none" | "raw" | "framed" (the API forbids mixing)
@@ -185,9 +186,10 @@ SortBody(name, i, j, c) ==
   /\ last' = [op |-> name, n |-> 0, panic |-> FALSE, pre |-> offset, inner |-> FALSE, lo |-> i, hi |-> j, cmp |-> c]
   /\ UNCHANGED <<mode, curSz, offset, maxSz, auto, kind, nextId>>
 
-SortSlice(c) == SortBody("SortSlice", 0, Len(written), c)
+SortSlice(c) == Len(written) <= MaxSort /\ SortBody("SortSlice", 0, Len(written), c)
 \* start / end are offsets of slice boundaries: start = offset of slice i+1, end = end of slice j
-SortSliceBetween(i, j, c) == i < j /\ j <= Len(written) /\ ~(i = 0 /\ j = Len(written)) /\ SortBody("SortSliceBetween", i, j, c)
+SortSliceBetween(i, j, c) == /\ i < j /\ j <= Len(written) /\ j - i <= MaxSort /\ ~(i = 0 /\ j = Len(written))
+                             /\ SortBody("SortSliceBetween", i, j, c)
 
 Next == \/ \E s \in Syms : Write(s) \/ Allocate(s) \/ AllocateOffset(s) \/ WriteSlice(s) \/ SliceAllocate(s)
         \/ Reset
